@@ -4,6 +4,6 @@ CONSTANTS
   MaxCalls = 3
   Hint = FALSE
   Axes <- AxesSmall
-INVARIANTS OnlyValidBuilt SameQuestionSameAnswer ElementsAgree AnsweredIffInRange FiniteNeverRejected ShapeOk BadBufferNeverOk KnotsReproduced PeriodicFunction
+INVARIANTS OnlyValidBuilt SameQuestionSameAnswer ElementsAgree AnsweredIffInRange FiniteNeverRejected ShapeOk EmptyBatchAnswered BadBufferNeverOk KnotsReproduced PeriodicFunction
 PROPERTY Immutable
 CHECK_DEADLOCK FALSE
